@@ -410,3 +410,61 @@ def f10(ctx):
     ctx.check('FlattenWithPath/result-order', ok,
               'the engine returns (paths, leaves, treespec), the order ops.py unpacks',
               'FlattenWithPath returns its results in another order than ops.py unpacks', f.loc)
+
+
+@rule('W3', floor=4, title='transform applies f_leaf to leaves and f_node to nodes and accepts only a one-level replacement with the same flags')
+def w3(ctx):
+    prog = ctx.cxx()
+    f = prog.one('PyTreeSpec::Transform')
+    cfg = cfg_of(f)
+    fam = [f] + prog.lambdas_of(f)
+    # (a) the callback is chosen by `kind == Leaf ? f_leaf : f_node`
+    from ..descriptors import _kind_test
+    sel = []
+    for g in fam:
+        if g.body is None:
+            continue
+        for co in g.body.find('ConditionalOperator'):
+            kt = _kind_test(strip_casts(co.kids[0])) if co.kids else None
+            names = [member_path(strip_casts(x)) for x in co.kids[1:3]]
+            if kt is not None and all(names):
+                sel.append((kt, names, co))
+    pnames = [p_[0] for p_ in f.params]
+    ctx.require(len(pnames) == 2, 'Transform: %d parameters' % len(pnames))
+    oka = False
+    for (en, eq), names, co in sel:
+        if en == 'Leaf' and set(names) == set(pnames):
+            # (f_node, f_leaf) by position: leaf callback is the second parameter
+            leaf_cb = names[0] if eq else names[1]
+            oka = leaf_cb == pnames[1]
+    ctx.check('Transform/callback-by-kind', oka,
+              'Transform calls its second callback (f_leaf) for leaves and its first (f_node) for nodes',
+              'Transform does not select f_leaf for `kind == Leaf` and f_node otherwise (selections: %s)'
+              % [(k, n) for k, n, _ in sel], f.loc)
+    # (b) a replacement for a non-leaf node must be one level with the same arity, (c) same flags
+    emps = [c for c in calls_in(f.body, {'emplace_back'})
+            if any(m.kind == 'MemberExpr' and m.name == 'm_traversal' for m in c.walk()) and
+            any(x.kind == 'CXXMemberCallExpr' and x.callee_name() == 'back' for x in c.walk())]
+    ctx.require(len(emps) == 1, 'Transform: %d sites that take the replacement root' % len(emps))
+    en = cfg.cnode_of(emps[0])
+
+    def guarded(pred, what):
+        for cn in cfg.nodes:
+            if cn.kind != 'cond' or cn.ast is None or not pred(cn.ast.text(6)):
+                continue
+            t = cfg.forward_reachable([w for (w, lab) in cfg.succ[cn.idx] if lab is True])
+            if cfg.dominates(cn.idx, en) and en not in t and any(cfg.nodes[x].kind == 'throw' for x in t):
+                return True
+        return False
+    checks = (
+        ('same-arity', lambda t: 'GetNumLeaves' in t and 'arity' in t and '!=' in t,
+         'the replacement has as many leaves as the node has children'),
+        ('one-level', lambda t: 'GetNumNodes' in t and 'arity' in t and '!=' in t,
+         'the replacement has exactly arity + 1 nodes (it is one level deep)'),
+        ('same-none_is_leaf', lambda t: 'm_none_is_leaf' in t and '!=' in t,
+         'the replacement has the treespec\'s none_is_leaf'),
+    )
+    for key, pred, what in checks:
+        ctx.check('Transform/' + key, guarded(pred, what),
+                  'Transform rejects a replacement unless %s, before it is spliced in' % what,
+                  'Transform splices a replacement in without checking that %s' % what, emps[0].loc)
